@@ -139,7 +139,7 @@ def fit_obligations():
 def predict_effects():
     obs = []
     for cls in estimators_all():
-        for meth in ("predict", "predict_proba", "score"):
+        for meth in ("predict", "predict_proba", "score", "get_gemini", "get_selection", "find_active_points"):
             if not hasattr(cls, meth):
                 continue
             fn = f"{cls.__module__}.{cls.__name__}.{meth}"
@@ -185,6 +185,28 @@ def path_frame():
     obs.append(Ob("_path: batches are drawn from check_random_state(clf.random_state) created in this call", PROVED if ok else REFUTED, "fx-dataflow", "P", {}, fn=fn))
     ft = [e for st in sts for e in st.events if e[0] == "call" and e[2] == "clf.fit"]
     obs.append(Ob("_path: restarts from a full re-fit (clf.fit re-initialises parameters and optimiser: fit contract)", PROVED if ft else REFUTED, "fx-dataflow", "P", {}, fn=fn))
+    return obs
+
+
+def path_wrapper_frame():
+    """the public path() wrappers write no constructor hyper-parameter themselves (the only writes of the model during a
+    path are those of _path, which restores them: path_frame) and never mutate the caller's arrays."""
+    from gemclus.sparse import SparseLinearModel, SparseMLPModel, SparseLinearMMD, SparseLinearMI, SparseMLPMMD
+    obs = []
+    for cls in (SparseLinearModel, SparseLinearMMD, SparseLinearMI, SparseMLPModel, SparseMLPMMD):
+        fn = f"{cls.__module__}.{cls.__name__}.path"
+        try:
+            sts = fx.Interp(cls, inline_filter=lambda o, m: False).run_method("path")
+        except fx.FxUnsupported as e:
+            obs.append(Ob(f"{cls.__name__}.path: analysable", UNDECIDED, "fx", "P", {"why": str(e)}, fn=fn))
+            continue
+        hp = set(inspect.signature(cls.__init__).parameters) - {"self"}
+        written = {e[2] for st in sts for e in st.events if e[0] == "store" and e[1] == SELF}
+        setp = {k for st in sts for e in st.events if e[0] == "call" and e[2] == "self.set_params" for k, _ in e[4]}
+        muts = [fx.show(e[2])[:60] for st in sts for e in st.events if e[0] == "mutate" and _caller_data(e[1])]
+        bad = sorted((written | setp) & hp)
+        obs.append(Ob(f"{cls.__name__}.path: the wrapper writes no constructor hyper-parameter and never mutates the caller's arrays",
+                      PROVED if sts and not bad and not muts else REFUTED, "fx-frame", "P", {"hyper-parameters written": bad, "mutations": muts[:3]}, fn=fn))
     return obs
 
 
